@@ -1,7 +1,11 @@
 package sim
 
 import (
+	"crypto/sha256"
 	"fmt"
+	"os"
+	"path/filepath"
+	"sort"
 	"strings"
 
 	"github.com/syndtr/goleveldb/leveldb"
@@ -46,6 +50,8 @@ func (r *runner) mainLife() {
 		r.lifeROOpen()
 	case "setro":
 		r.lifeSetRO()
+	case "ro-fs":
+		r.lifeROFS()
 	case "closed":
 		r.lifeClosed()
 	case "race":
@@ -478,7 +484,7 @@ func genLife(seed uint64, g *gen, thorough bool) *Case {
 	p := profile{ops: [2]int{3, 80}, maxMoves: 10, syncP: 0.1}
 	p.wWrite, p.wGet, p.wIter, p.wTx, p.wCompact, p.wSnap = 70, 8, 2, 4, 4, 2
 	c.Clients = [][]Op{g.program(p)}
-	c.Life = []string{"lock", "ro-open", "setro", "closed", "race"}[r.intn(5)]
+	c.Life = []string{"lock", "ro-open", "setro", "closed", "race", "race", "ro-fs"}[r.intn(7)]
 	if c.Life == "setro" && r.p(0.4) {
 		// SetReadOnly while a flush or compaction is failing and retrying
 		for i := r.rng(1, 2); i > 0; i-- {
@@ -518,4 +524,164 @@ func genLife(seed uint64, g *gen, thorough bool) *Case {
 		}
 	}
 	return c
+}
+
+// fsName is the name file storage gives a file (kept independent of the
+// package's own naming function).
+func fsName(fd storage.FileDesc) string {
+	switch fd.Type {
+	case storage.TypeManifest:
+		return fmt.Sprintf("MANIFEST-%06d", fd.Num)
+	case storage.TypeJournal:
+		return fmt.Sprintf("%06d.log", fd.Num)
+	case storage.TypeTable:
+		return fmt.Sprintf("%06d.ldb", fd.Num)
+	}
+	return fmt.Sprintf("%06d.tmp", fd.Num)
+}
+
+func dirState(dir string) (map[string]string, error) {
+	ents, err := os.ReadDir(dir)
+	if err != nil {
+		return nil, err
+	}
+	st := map[string]string{}
+	for _, e := range ents {
+		b, err := os.ReadFile(filepath.Join(dir, e.Name()))
+		if err != nil {
+			return nil, err
+		}
+		fi, _ := e.Info()
+		st[e.Name()] = fmt.Sprintf("%d bytes, sha256 %x, mode %v", len(b), sha256.Sum256(b), fi.Mode())
+	}
+	return st, nil
+}
+
+// lifeROFS: read-only at the level of the real file storage (the only
+// scenario that runs leveldb/storage's file_storage.go, against a scratch
+// directory of the real file system, since that file has no seam below it).
+// The settled image is laid out in a directory the way file storage does,
+// together with what a crash in the middle of a manifest switch or an unclean
+// shutdown leaves behind (pending CURRENT.<n>, CURRENT.bak, damaged or missing
+// CURRENT, stray temp files); storage.OpenFile(dir, readOnly) + a read-only
+// Open must serve all data and leave every directory entry byte-identical.
+func (r *runner) lifeROFS() {
+	r.closeDB()
+	r.disk.NextEpoch(0, 0, false)
+	simrt.SetEpoch(r.disk.Epoch + 1000)
+	dir, err := os.MkdirTemp("", "verif-rofs-")
+	if err != nil {
+		r.probe("rofs-no-tmpdir")
+		return
+	}
+	defer os.RemoveAll(dir)
+	put := func(name string, data []byte) {
+		if err := os.WriteFile(filepath.Join(dir, name), data, 0o644); err != nil {
+			panic(err)
+		}
+	}
+	for _, fd := range r.disk.ListFiles(storage.TypeAll) {
+		data, _ := r.disk.Data(fd)
+		put(fsName(fd), data)
+	}
+	meta := r.disk.Meta()
+	cur := []byte(fsName(meta) + "\n")
+	put("LOCK", nil)
+	put("LOG", []byte("log\n"))
+	rng := xr{r.c.Seed*2654435761 + 99}
+	kind := int(rng.next() % 7)
+	switch kind {
+	case 0: // clean
+		put("CURRENT", cur)
+	case 1: // crash after the pending file was written, before the rename
+		put("CURRENT", cur)
+		put(fmt.Sprintf("CURRENT.%d", meta.Num), cur)
+	case 2: // crash after CURRENT was moved away: only the pending file and the backup exist
+		put(fmt.Sprintf("CURRENT.%d", meta.Num), cur)
+		put("CURRENT.bak", cur)
+	case 3: // a torn pending file next to a good CURRENT
+		put("CURRENT", cur)
+		put(fmt.Sprintf("CURRENT.%d", meta.Num+1), cur[:len(cur)/2])
+	case 4: // a damaged CURRENT with a good backup
+		put("CURRENT", []byte("MANIFEST-00"))
+		put("CURRENT.bak", cur)
+	case 5: // a pending file that points to a manifest that was never written
+		put("CURRENT", cur)
+		put(fmt.Sprintf("CURRENT.%d", meta.Num+5), []byte(fmt.Sprintf("MANIFEST-%06d\n", meta.Num+5)))
+	case 6: // stray files
+		put("CURRENT", cur)
+		put("CURRENT.bak", cur)
+		put("999999.tmp", []byte("temp"))
+		put("notes.txt", []byte("not ours"))
+	}
+	before, err := dirState(dir)
+	if err != nil {
+		panic(err)
+	}
+	stor, err := storage.OpenFile(dir, true)
+	if err != nil {
+		r.viol("readonly", "readonly:fs-open-failed", fmt.Sprintf("read-only OpenFile failed (layout %d): %v", kind, err))
+		return
+	}
+	o := r.knobs.Options()
+	o.ReadOnly = true
+	simrt.SetOp("Open")
+	db, err := leveldb.Open(stor, o)
+	simrt.SetOp("")
+	simrt.Progress()
+	if err != nil {
+		stor.Close()
+		r.viol("readonly", "readonly:open-failed", fmt.Sprintf("read-only Open on file storage failed (layout %d): %v", kind, err))
+		return
+	}
+	r.db = db
+	r.scanAll("scan")
+	for _, k := range r.model.keys {
+		if len(r.out.Viol) > 0 {
+			break
+		}
+		r.doGet(&Op{K: "get", Key: k}, nil)
+	}
+	r.roProbes()
+	simrt.Quiesce()
+	simrt.IdleFor(31e9)
+	simrt.Quiesce()
+	r.db = nil
+	db.Close()
+	stor.Close()
+	simrt.Progress()
+	after, err := dirState(dir)
+	if err != nil {
+		panic(err)
+	}
+	var names []string
+	for n := range before {
+		names = append(names, n)
+	}
+	for n := range after {
+		if _, ok := before[n]; !ok {
+			names = append(names, n)
+		}
+	}
+	sort.Strings(names)
+	for _, n := range names {
+		b, okb := before[n]
+		a, oka := after[n]
+		switch {
+		case okb && !oka:
+			r.viol("readonly-mutate", "readonly-mutate:fs:removed", fmt.Sprintf("the read-only open removed %s (layout %d)", n, kind))
+		case !okb && oka:
+			r.viol("readonly-mutate", "readonly-mutate:fs:created", fmt.Sprintf("the read-only open created %s (layout %d)", n, kind))
+		case a != b:
+			r.viol("readonly-mutate", "readonly-mutate:fs:modified", fmt.Sprintf("the read-only open changed %s (layout %d): %s -> %s", n, kind, b, a))
+		default:
+			continue
+		}
+		return
+	}
+	r.probe("life-ro-fs")
+	r.out.Probes[fmt.Sprintf("life-ro-fs-layout-%d", kind)]++
+	if !r.ensureOpen() && len(r.out.Viol) == 0 {
+		r.viol("lock", "lock:not-released", "Open after the file-storage scenario failed")
+	}
 }
